@@ -56,8 +56,8 @@ def build(cfg, delayed):
         return neural.LinearDirect((2,), dt, synapse=ctor, delay=delay, batch_size=B, bias=cfg["bias"])
     if kind == "lateral":
         return neural.LinearLateral((2,), dt, synapse=ctor, delay=delay, batch_size=B, bias=cfg["bias"])
-    H, W, kh, kw = cfg.get("geom", (2, 2, 1, 2))
-    return neural.Conv2D(H, W, 1, 2, dt, (kh, kw), synapse=ctor, delay=delay, batch_size=B, bias=cfg["bias"])
+    H, W, kh, kw, Cn = (tuple(cfg.get("geom", (2, 2, 1, 2))) + (1,))[:5]
+    return neural.Conv2D(H, W, Cn, 2, dt, (kh, kw), synapse=ctor, delay=delay, batch_size=B, bias=cfg["bias"])
 
 
 def h_shift(e, cfg):
@@ -163,9 +163,9 @@ def h_shift(e, cfg):
                     v = T.mul(wa[i], sc[b, i, 0])
                     exp[b, i] = T.add(v, ba[i]) if ba is not None else v
         else:  # conv: 1 input channel, F=2 filters; synapse shape (N = kh*kw, L = Ho*Wo) in unfold order n = a*kw + b
-            H_, W_, kh, kw = cfg.get("geom", (2, 2, 1, 2))
+            H_, W_, kh, kw, Cn = (tuple(cfg.get("geom", (2, 2, 1, 2))) + (1,))[:5]
             Ho, Wo = H_ - kh + 1, W_ - kw + 1
-            Fn, Nn, L = 2, kh * kw, Ho * Wo
+            Fn, Nn, L = 2, Cn * kh * kw, Ho * Wo          # unfold order of the synapse rows: n = (c * kh + a) * kw + b
             exp = np.empty((B, Fn, Ho, Wo), dtype=object)
             sc = np.empty((B, Nn, L, Fn), dtype=object)
             ss = np.empty((B, Nn, L, Fn), dtype=object)
@@ -173,13 +173,14 @@ def h_shift(e, cfg):
                 for f in range(Fn):
                     for l in range(L):
                         v = F(0)
-                        for a in range(kh):
-                            for bb in range(kw):
-                                n_ = a * kw + bb
-                                d = da[f, 0, a, bb]
-                                sc[b, n_, l, f] = shifted_current((b, n_, l), d)
-                                ss[b, n_, l, f] = shifted_spike((b, n_, l), d)
-                                v = T.add(v, T.mul(wa[f, 0, a, bb], sc[b, n_, l, f]))
+                        for cc in range(Cn):
+                            for a in range(kh):
+                                for bb in range(kw):
+                                    n_ = (cc * kh + a) * kw + bb
+                                    d = da[f, cc, a, bb]
+                                    sc[b, n_, l, f] = shifted_current((b, n_, l), d)
+                                    ss[b, n_, l, f] = shifted_spike((b, n_, l), d)
+                                    v = T.add(v, T.mul(wa[f, cc, a, bb], sc[b, n_, l, f]))
                         exp[b, f, l // Wo, l % Wo] = T.add(v, ba[f]) if ba is not None else v
         e.oblige_eq("shift:forward", outD, exp, split=True, step=t)
         if cfg["delays"] == "zero":
@@ -205,6 +206,9 @@ def checks(tier):
                             if kind == "conv" and delays != "zero" and (th or (syn in ("delta", "single") and dt == 1.3)):
                                 # a kernel with both sides > 1: the flattening order of the per-synapse delays matters
                                 cfgs.append(dict(kind=kind, syn=syn, dt=dt, max=mmul * dt, delays=delays, B=B, bias=False, T=(3 if th else 2), geom=(2, 3, 2, 2)))
+                                if syn == "delta" or th:
+                                    # two input channels: the (c kh kw) order of the per-synapse delays / unfolded patches
+                                    cfgs.append(dict(kind=kind, syn=syn, dt=dt, max=mmul * dt, delays=delays, B=B, bias=False, T=(3 if th else 2), geom=(2, 2, 1, 2, 2)))
     # concrete Python-float delays k * dt at step times float32 cannot represent (delay / dt lands an ulp off the integer)
     for kind in ("dense", "direct", "lateral", "conv"):
         for syn in (tuple(SYN) if th else ("delta", "single")):
@@ -217,7 +221,7 @@ def checks(tier):
 
 
 BOUNDS = {
-    "quick": {"connections": ["dense 2->2", "direct 2", "lateral 2", "conv 1x2x2 k(1,2) F=2"], "synapses": 5, "dt": [1.0, 1.3], "max delay": "2dt",
+    "quick": {"connections": ["dense 2->2", "direct 2", "lateral 2", "conv 1x2x2 k(1,2) F=2; 1x2x3 k(2,2); 2x2x2 k(1,2) (two channels)"], "synapses": 5, "dt": [1.0, 1.3], "max delay": "2dt",
               "delay tensor": "symbolic per synapse: any real in [0,max] / constrained to the grid / all zero; and concrete Python-float multiples k*dt (k <= 3, dt = 1.3) whose float32 quotient is an ulp off the integer", "steps": "3, then clear() and 2 more (grid/zero delays, and every dense configuration)", "batch": 1},
     "thorough": {"max delay": ["dt", "2dt", "3dt"], "steps": "5, then clear() and 3 more", "batch": [1, 2]},
 }
